@@ -23,6 +23,8 @@ def run(ctx):
     rl = RecordLoop(prog)
     from checks.recordloop import check_raw_record_fields
     check_raw_record_fields(ctx, 'C13.R1', rl)
+    from checks.recordloop import check_membership_params_materialised
+    check_membership_params_materialised(ctx, 'C13.R2', rl)
     mod, fn = rl.mod, rl.fn
     if 'chains' not in rl.params:
         raise AnalysisError('C13: record generator has no `chains` parameter')
